@@ -79,6 +79,16 @@ def run_validation(ctx):
   return out
 
 
+def replay_validation(w):
+  from dinosaur import sigma_coordinates as sc
+  b = [float(v) for v in w.get('boundaries', [])]
+  try:
+    s = sc.SigmaCoordinates(b)
+  except (ValueError, IndexError) as e:
+    return ('accepts' in w.get('_obligation', '')), f'SigmaCoordinates({b}) raised {type(e).__name__}: {e}'
+  return ('rejects' in w.get('_obligation', '')), f'SigmaCoordinates({b}) was accepted: layer_thickness = {s.layer_thickness.tolist()}, centers = {s.centers.tolist()}'
+
+
 def run_linearity(ctx):
   jax = common.jx()
   import jax.numpy as jnp
@@ -246,7 +256,7 @@ def clauses(tier, seed):
       'dinosaur.primitive_equations.get_geopotential_weights', 'dinosaur.primitive_equations.get_geopotential_diff',
       'dinosaur.primitive_equations.get_sigma_ratios']
   cl = [
-      Clause('enum:level-set validation', 'enum', fns[:4], run_validation, group='jax-a', heavy=True),
+      Clause('enum:level-set validation', 'enum', fns[:4], run_validation, replay=replay_validation, group='jax-a', heavy=True),
       Clause('static:(bi)linearity of the vertical operators', 'static', fns, run_linearity, group='jax-a', heavy=True),
       Clause('numeric:integral / difference / summation-by-parts / geopotential identities on complete column bases', 'numeric', fns,
              run_identities, replay=replay_identity, group='jax-b', heavy=True),
@@ -260,8 +270,12 @@ def clauses(tier, seed):
 
 
 MANIFEST = {
-    'engine': 'jxa+pyvc',
-    'technique': 'contract-based: (bi)linearity proved on the traced programs; identities as matrix identities on complete column bases for enumerated level sets; validation by enumerated bad inputs (+ pyvc VCs where built)',
-    'text': ('other: complete over column data and vertical velocities (linearity/bilinearity proved statically), bounded over layer counts and level sets.'),
+    'engine': 'pyvc+jxa',
+    'technique': ('contract-based deductive: VCs from the real source in 1-d array mode for every layer count -- level-set validation, geometry (midpoints, thickness, '
+                  'centre-to-centre), centred difference (formula, affine exactness), centred vertical advection (documented formula) and the summation-by-parts lemma by induction '
+                  '(z3, non-linear steps through index-case resolution + abstraction); (bi)linearity proved on the traced programs; identities as matrix identities on complete column '
+                  'bases for enumerated level sets (bounded twins, also guarding NaN/float behaviour)'),
+    'text': ('other: validation, geometry, centred difference/advection and summation by parts are proved for all layer counts and all strictly increasing level sets (floats as reals); '
+             'cumulative integrals, cumsum strategies and the geopotential operator are complete over column data but bounded over layer counts and level sets.'),
     'note': 'trusted: A1/A2; independent loop specification of the trapezoid rule; jxa rules.',
 }
